@@ -17,6 +17,7 @@ import (
 	"strings"
 	"sync"
 	"time"
+	"verif/monlog"
 
 	"google.golang.org/protobuf/proto"
 
@@ -905,7 +906,7 @@ var errAbort = errors.New("abort fixture")
 
 // handle injects beacon number i and judges the resulting DB content.
 func (fx *fixture) handle(r *mon.Run, i int) error {
-	ctx := context.Background()
+	ctx := monlog.Alternate() // log level is a configuration dimension
 	bs := fx.spec.Beacons[i]
 	ps, err := fx.build(bs)
 	if err != nil {
@@ -1230,7 +1231,7 @@ func lenBucket(n int) string {
 }
 
 func (fx *fixture) propagate(r *mon.Run, mode string, provider beaconing.BeaconProvider, allow bool) error {
-	ctx := context.Background()
+	ctx := monlog.Alternate() // log level is a configuration dimension
 	macf, err := scrypto.HFMacFactory([]byte("0123456789abcdef"))
 	if err != nil {
 		panic(err)
